@@ -67,6 +67,52 @@ def check(chk):
     s = src(uft)
     chk.judge('intervals = int(microseconds * 10) + 122192928000000000' in s and '(uuid_arg.time - 122192928000000000) / 10000000.0' in src(ut), 'C34.uuid', uft,
               '100 ns intervals: microseconds * 10 + offset; (time - offset) / 1e7 seconds back', 'interval scaling differs between the two directions')
+    # exactness: a datetime has whole microseconds and a v1 UUID whole 100 ns units - the conversions between the two never pass through a float
+    chk.rule('C34.exact', 'datetime -> UUID (datetime arm of uuid_from_time) and UUID -> datetime (datetime_from_uuid1) are computed in integer arithmetic: no float literal, no true division, no float-returning helper on the value path')
+
+    def tainted(fn, e, depth=0):
+        """why expression e may be a float (text) or None"""
+        for x in ast.walk(e):
+            if isinstance(x, ast.Constant) and isinstance(x.value, float):
+                return 'float literal %r' % x.value
+            if isinstance(x, ast.BinOp) and isinstance(x.op, ast.Div):
+                return 'true division %s' % src(x)[:50]
+            if isinstance(x, ast.Call) and isinstance(x.func, ast.Name) and x.func.id == 'float':
+                return 'float()'
+            if isinstance(x, ast.Call) and isinstance(x.func, ast.Name) and depth < 3:
+                try:
+                    callee = m.func(x.func.id)
+                except Exception:
+                    callee = None
+                if callee is not None:
+                    for r in body_walk(callee):
+                        if isinstance(r, ast.Return) and r.value is not None:
+                            why = tainted(callee, r.value, depth + 1)
+                            if why:
+                                return '%s() returns a float (%s)' % (x.func.id, why)
+            if isinstance(x, ast.Name) and isinstance(x.ctx, ast.Load) and depth < 3:
+                defs = [st for st in body_walk(fn) if isinstance(st, ast.Assign) and any(isinstance(t, ast.Name) and t.id == x.id for t in st.targets)]
+                if len(defs) == 1 and defs[0].value is not e:
+                    why = tainted(fn, defs[0].value, depth + 1)
+                    if why:
+                        return '%s = %s' % (x.id, why)
+        return None
+    arm = [n for n in body_walk(uft) if isinstance(n, ast.If) and 'utctimetuple' in src(n.test)]
+    if len(arm) != 1:
+        raise AnalysisError('uuid_from_time: datetime arm not found')
+    micro = [st for st in arm[0].body if isinstance(st, ast.Assign) and src(st.targets[0]) == 'microseconds']
+    if len(micro) != 1:
+        raise AnalysisError('uuid_from_time: microseconds of the datetime arm not found')
+    why = tainted(uft, micro[0].value)
+    chk.judge(why is None, 'C34.exact', micro[0], 'uuid_from_time(datetime): %s' % src(micro[0]),
+              'the microsecond count of a datetime is a float (%s): multiplied by 10 it exceeds 2**53 for every instant after 1998 and is rounded to a multiple of 2, 4, 8 ... '
+              '100 ns units, and about 2%% of the instants between 2038 and 2100 decode back one microsecond off' % why)
+    dfu = m.func('datetime_from_uuid1')
+    for r in [n for n in body_walk(dfu) if isinstance(n, ast.Return) and n.value is not None]:
+        why = tainted(dfu, r.value)
+        chk.judge(why is None, 'C34.exact', r, 'datetime_from_uuid1: %s' % src(r)[:100],
+                  'the UUID\'s 100 ns count is turned into a float number of seconds (%s) before it becomes a datetime: near 4e9 s a double resolves only about half a microsecond, '
+                  'so instants late in this century decode one microsecond off' % why)
     # field packing expressions
     env_exprs = {}
     for st in body_walk(uft):
